@@ -269,6 +269,8 @@ def filter_args(func, ignore_lst, args=(), kwargs=dict()):
         class_method_sig = inspect.signature(func.__func__)
         self_name = next(iter(class_method_sig.parameters))
         arg_names = [self_name] + arg_names
+        # 'self' is already bound: a keyword with that name goes to **kwargs
+        arg_posonlyargs = [self_name] + arg_posonlyargs
     # XXX: Maybe I need an inspect.isbuiltin to detect C-level methods, such
     # as on ndarrays.
 
